@@ -24,6 +24,21 @@
 //     GetProtocolSustainabilityRewards() and is >= the configured protocol reward (it receives
 //     the remainders, it never pays for them).
 //
+// Economics-to-rewards phase (added after an independently seeded defect in
+// ComputeEndOfEpochEconomics was missed by the hand-set economics above): the REAL
+// NewEndOfEpochEconomicsDataCreator.ComputeEndOfEpochEconomics (previous epoch-start block from
+// a storer stub, as economics_test.go wires it) publishes into the SAME EpochEconomicsStatistics
+// instance rewardsCreatorV2 reads; the produced economics are stored in the meta block like
+// metaProcessor does and the creator that rewardsCreatorProxy would pick (V2 iff epoch >
+// StakingV2EnableEpoch) runs on it. Product: round/block patterns x inflation {0.1, 0} x
+// accumulated fees {0, T/2, T-1, T, T+1, 2T+12345, T+10^18 (, 10^15, 10T)} where T is the
+// inflation-based total read off the real component x developer fees {0, 10%, 30% of the fees}
+// x staking V2 on/off x epoch flags x top-up curve x validator sets. Oracle (the statement):
+// sum of reward txs == produced EpochStart.Economics.TotalToDistribute - DevFeesInEpoch
+// (developer fees are paid by the SC processor, never by reward txs), every value > 0, plus the
+// receiver/getter checks. Signatures of this phase carry the prefix "economics-to-rewards:"
+// (except the registered V1 known finding, which keeps its one signature in both phases).
+//
 // Findings on the unchanged tree (both outside the design's expectation "holds"):
 //  1. V1 (rewardsCreator): the block reward of a validator classified offline is added to the
 //     protocol sustainability tx in computeValidatorInfoPerRewardAddress but not to
@@ -34,6 +49,11 @@
 //     tx to that address is still created.
 //
 // /verif/fixes/C35.diff repairs both (package tests pass).
+//  3. (found by the economics-to-rewards phase) V2 computeTopUpRewards evaluates (2k/pi)*atan(x/p)
+//     in 53-bit floats (big.NewFloat(0) has precision 53): with top-up factor 1 (k = rewards for
+//     blocks) and a saturated atan the result can exceed k, e.g. total 4566210045662101302 ->
+//     4566210045662102016; base rewards become negative, the negative dust is refused and the
+//     reward txs add up to MORE than the amount to distribute. /verif/fixes/C35-topup-cap.diff.
 package main
 
 import (
@@ -56,6 +76,7 @@ import (
 	"github.com/ElrondNetwork/elrond-go/data/block"
 	"github.com/ElrondNetwork/elrond-go/data/rewardTx"
 	"github.com/ElrondNetwork/elrond-go/data/state"
+	"github.com/ElrondNetwork/elrond-go/dataRetriever"
 	"github.com/ElrondNetwork/elrond-go/epochStart"
 	"github.com/ElrondNetwork/elrond-go/epochStart/metachain"
 	esmock "github.com/ElrondNetwork/elrond-go/epochStart/mock"
@@ -63,6 +84,7 @@ import (
 	"github.com/ElrondNetwork/elrond-go/marshal"
 	"github.com/ElrondNetwork/elrond-go/process"
 	"github.com/ElrondNetwork/elrond-go/sharding"
+	"github.com/ElrondNetwork/elrond-go/storage"
 	"github.com/ElrondNetwork/elrond-go/testscommon"
 	"github.com/ElrondNetwork/elrond-go/testscommon/economicsmocks"
 	"github.com/ElrondNetwork/elrond-go/testscommon/genericMocks"
@@ -78,6 +100,9 @@ const (
 	delegEpoch     = 10 // DelegationSystemSCEnableEpoch; meta block epoch 5 (off) / 15 (on)
 	fix1Epoch      = 10 // RewardsFix1EpochEnable of the V1 creator: epoch 15 > 10 on; epoch 5 off
 	devFees        = 11 // DevFeesInEpoch (V1 subtracts it from TotalToDistribute)
+
+	genesisSupply = "20000000000000000000000000" // 20M * 10^18
+	roundSeconds  = 4                            // economics-to-rewards phase: 21600 rounds per day
 )
 
 var (
@@ -251,13 +276,15 @@ type creator interface {
 }
 
 type rig struct {
-	v2, v1   creator
-	stats    epochStart.EpochEconomicsDataProvider
-	coord    sharding.Coordinator
-	topUps   map[string]*big.Int
-	totalTop *big.Int
-	factor   float64
-	gradient *big.Int
+	econV2on, econV2off process.EndOfEpochEconomics // real end-of-epoch economics, staking V2 enable epoch 0 / 1000
+	inflation           float64
+	v2, v1              creator
+	stats               epochStart.EpochEconomicsDataProvider
+	coord               sharding.Coordinator
+	topUps              map[string]*big.Int
+	totalTop            *big.Int
+	factor              float64
+	gradient            *big.Int
 }
 
 func must(err error) {
@@ -323,6 +350,45 @@ func newRig() *rig {
 	v1, err := metachain.NewRewardsCreator(metachain.ArgsNewRewardsCreator{BaseRewardsCreatorArgs: base()})
 	must(err)
 	r.v2, r.v1 = v2, v1
+
+	// the real end-of-epoch economics component, publishing into the SAME statistics holder that
+	// rewardsCreatorV2 reads (wired like epochStart/metachain/economics_test.go: the previous
+	// epoch-start meta block comes from a storer stub)
+	prev := &block.MetaBlock{
+		Round: 0, Nonce: 0, Epoch: 0,
+		AccumulatedFees: big.NewInt(0), DeveloperFees: big.NewInt(0), AccumulatedFeesInEpoch: big.NewInt(0), DevFeesInEpoch: big.NewInt(0),
+		EpochStart: block.EpochStart{
+			Economics: block.Economics{TotalSupply: bigS(genesisSupply), TotalToDistribute: big.NewInt(10), TotalNewlyMinted: big.NewInt(10),
+				RewardsPerBlock: big.NewInt(10), NodePrice: bigS("2500000000000000000000"), RewardsForProtocolSustainability: big.NewInt(10)},
+			LastFinalizedHeaders: []block.EpochStartShardData{{ShardID: 0, Nonce: 0}, {ShardID: 1, Nonce: 0}},
+		},
+	}
+	gm := &marshal.GogoProtoMarshalizer{}
+	prevBytes, err := gm.Marshal(prev)
+	must(err)
+	store := &esmock.ChainStorerStub{GetStorerCalled: func(dataRetriever.UnitType) storage.Storer {
+		return &testscommon.StorerStub{GetCalled: func([]byte) ([]byte, error) { return prevBytes, nil }}
+	}}
+	erh := &economicsmocks.EconomicsHandlerStub{
+		MaxInflationRateCalled:                 func(uint32) float64 { return r.inflation },
+		ProtocolSustainabilityPercentageCalled: func() float64 { return 0.1 },
+		// the stub only consults the percentage callback when the address callback is set as well
+		ProtocolSustainabilityAddressCalled: func() string { return "unused" },
+		LeaderPercentageCalled:              func() float64 { return 0.1 },
+		RewardsTopUpGradientPointCalled:     func() *big.Int { return new(big.Int).Set(r.gradient) },
+		RewardsTopUpFactorCalled:            func() float64 { return r.factor },
+	}
+	mkEcon := func(stakingV2Epoch uint32) process.EndOfEpochEconomics {
+		e, err := metachain.NewEndOfEpochEconomicsDataCreator(metachain.ArgsNewEpochEconomics{
+			Marshalizer: gm, Hasher: blake2b.NewBlake2b(), Store: store, ShardCoordinator: coord, RewardsHandler: erh,
+			RoundTime:    &esmock.RoundTimeDurationHandler{TimeDurationCalled: func() time.Duration { return roundSeconds * time.Second }},
+			GenesisEpoch: 0, GenesisNonce: 0, GenesisTotalSupply: bigS(genesisSupply),
+			EconomicsDataNotified: r.stats, StakingV2EnableEpoch: stakingV2Epoch,
+		})
+		must(err)
+		return e
+	}
+	r.econV2on, r.econV2off = mkEcon(0), mkEcon(1000)
 	return r
 }
 
@@ -386,48 +452,76 @@ type acc struct {
 	outcomes          map[string]struct{}
 }
 
-func (rn *runner) run(r *rig, v2 bool, s vset, e econ, a *acc) {
-	c := rn.c
-	ver := "V1"
-	if v2 {
-		ver = "V2"
-	}
-	// ---- inputs
-	infos := map[uint32][]*state.ValidatorInfo{0: {}, 1: {}, core.MetachainShardId: {}}
+// job is one fully prepared call of CreateRewardsMiniBlocks plus what the oracle needs.
+type job struct {
+	prefix   string // signature prefix of the phase ("" = hand-set economics, "economics-to-rewards:")
+	v2       bool
+	s        vset
+	deleg    bool // delegation flag (epoch 15) / V1 rewards-fix-1
+	mb       *block.MetaBlock
+	computed *block.Economics
+	infos    map[uint32][]*state.ValidatorInfo
+	expected *big.Int // amount that must be distributed through reward transactions
+	P        *big.Int // configured protocol sustainability reward
+	rpb      *big.Int // RewardsPerBlock of the meta block (V1 signature refinement only)
+	factor   float64  // top-up factor in force (signature refinement only)
+	descr    func() string
+	replay   interface{}
+
+	offIdx            []int // validators the creator classifies offline although they signed blocks
+	offlineWithBlocks bool
+	metaRcv           bool
+}
+
+// prepareValidators builds the validators info of a set and loads the staking stub of the rig.
+// feeOf maps the fee index of the type menu to the validator's accumulated fees.
+func (j *job) prepareValidators(r *rig, feeOf func(idx int) *big.Int) (sumFees *big.Int) {
+	s := j.s
+	j.infos = map[uint32][]*state.ValidatorInfo{0: {}, 1: {}, core.MetachainShardId: {}}
 	for k := range r.topUps {
 		delete(r.topUps, k)
 	}
 	r.totalTop.SetInt64(0)
-	sumFees := int64(0)
-	offlineWithBlocks, metaRcv := false, false
-	var offIdx []int // validators the creator classifies offline although they signed blocks
+	sumFees = new(big.Int)
 	for i, v := range s {
 		st := statusVals[v.T.St]
 		vi := &state.ValidatorInfo{
 			PublicKey: []byte(fmt.Sprintf("bls-key-%d", i)), ShardId: groupShard[v.G], List: string(core.EligibleList), Index: uint32(i),
 			RewardAddress: valAddr(i, v), LeaderSuccess: st[0], ValidatorSuccess: st[1], ValidatorFailure: st[2],
-			NumSelectedInSuccessBlocks: selVals[v.T.Sel], AccumulatedFees: big.NewInt(feeVals[v.T.Fee]), TempRating: 50, Rating: 50,
+			NumSelectedInSuccessBlocks: selVals[v.T.Sel], AccumulatedFees: feeOf(v.T.Fee), TempRating: 50, Rating: 50,
 		}
-		infos[vi.ShardId] = append(infos[vi.ShardId], vi)
+		j.infos[vi.ShardId] = append(j.infos[vi.ShardId], vi)
 		r.topUps[string(vi.PublicKey)] = topUpVals[v.T.Top]
 		r.totalTop.Add(r.totalTop, topUpVals[v.T.Top])
-		sumFees += feeVals[v.T.Fee]
+		sumFees.Add(sumFees, vi.AccumulatedFees)
 		// "offline" as the creator under test classifies it: V2 and V1 after rewards-fix-1: never
 		// succeeded as leader nor validator; V1 before the fix: LeaderSuccess==0 && ValidatorFailure==0
 		off := st[0] == 0 && st[1] == 0
-		if !v2 && !e.Deleg {
+		if !j.v2 && !j.deleg {
 			off = st[0] == 0 && st[2] == 0
 		}
 		if off && selVals[v.T.Sel] > 0 {
-			offlineWithBlocks = true
-			offIdx = append(offIdx, i)
+			j.offlineWithBlocks = true
+			j.offIdx = append(j.offIdx, i)
 		}
 		if v.T.Addr >= 3 {
-			metaRcv = true
+			j.metaRcv = true
 		}
 	}
+	return sumFees
+}
+
+// run is one input of the hand-set economics phase.
+func (rn *runner) run(r *rig, v2 bool, s vset, e econ, a *acc) {
+	type rep struct {
+		S vset
+		E econ
+		V bool
+	}
+	j := &job{v2: v2, s: s, deleg: e.Deleg, P: e.P, factor: e.Factor, descr: e.String, replay: rep{s, e, v2}}
+	sumFees := j.prepareValidators(r, func(idx int) *big.Int { return big.NewInt(feeVals[idx]) })
 	r.factor, r.gradient = e.Factor, e.Gradient
-	L := big.NewInt(sumFees + e.LExtra)
+	L := new(big.Int).Add(sumFees, big.NewInt(e.LExtra))
 	nb := e.Blocks[0] + e.Blocks[1] + e.Blocks[2]
 	rpb := new(big.Int)
 	if nb > 0 {
@@ -448,13 +542,24 @@ func (rn *runner) run(r *rig, v2 bool, s vset, e econ, a *acc) {
 	if e.Deleg {
 		epoch = 15
 	}
-	mb := &block.MetaBlock{Epoch: epoch, Round: 1000, Nonce: 900, DevFeesInEpoch: big.NewInt(devFees), AccumulatedFeesInEpoch: big.NewInt(100),
+	j.mb = &block.MetaBlock{Epoch: epoch, Round: 1000, Nonce: 900, DevFeesInEpoch: big.NewInt(devFees), AccumulatedFeesInEpoch: big.NewInt(100),
 		EpochStart: block.EpochStart{Economics: ec}}
 	computed := ec
 	computed.TotalToDistribute = new(big.Int).Set(total)
 	computed.RewardsPerBlock = new(big.Int).Set(rpb)
 	computed.RewardsForProtocolSustainability = new(big.Int).Set(e.P)
+	j.computed, j.expected, j.rpb = &computed, expected, rpb
+	rn.execute(r, j, a)
+}
 
+// execute runs the creator on a prepared job and evaluates the oracle.
+func (rn *runner) execute(r *rig, j *job, a *acc) (nVal int, dust bool) {
+	c := rn.c
+	v2, s, expected := j.v2, j.s, j.expected
+	ver := "V1"
+	if v2 {
+		ver = "V2"
+	}
 	cr := r.v1
 	if v2 {
 		cr = r.v2
@@ -463,7 +568,7 @@ func (rn *runner) run(r *rig, v2 bool, s vset, e econ, a *acc) {
 	a.evals++
 	var txLines []string
 	mkOut := func(sum *big.Int, what string) caseOut {
-		o := caseOut{Version: ver, Set: s.String(), Econ: e.String(), Expected: expected.String(), What: what}
+		o := caseOut{Version: ver, Set: s.String(), Econ: j.descr(), Expected: expected.String(), What: what}
 		o.Txs = append([]string{}, txLines...)
 		sort.Strings(o.Txs)
 		if sum != nil {
@@ -471,18 +576,14 @@ func (rn *runner) run(r *rig, v2 bool, s vset, e econ, a *acc) {
 		}
 		return o
 	}
-	type rep struct {
-		S vset
-		E econ
-		V bool
-	}
 	var sumForOut *big.Int
-	fail := func(sig, what string) {
-		c.ViolationR(ver+":"+sig, len(s)*1000+len(txLines), mkOut(sumForOut, what), rep{s, e, v2})
+	failRaw := func(sig, what string) {
+		c.ViolationR(sig, len(s)*1000+len(txLines), mkOut(sumForOut, what), j.replay)
 	}
+	fail := func(sig, what string) { failRaw(j.prefix+ver+":"+sig, what) }
 	var mbs block.MiniBlockSlice
 	var err error
-	if p := mc.Try(func() { mbs, err = cr.CreateRewardsMiniBlocks(mb, infos, &computed) }); p != "" {
+	if p := mc.Try(func() { mbs, err = cr.CreateRewardsMiniBlocks(j.mb, j.infos, j.computed) }); p != "" {
 		fail("panic", p)
 		return
 	}
@@ -493,7 +594,7 @@ func (rn *runner) run(r *rig, v2 bool, s vset, e econ, a *acc) {
 	// ---- observe
 	cache := cr.GetLocalTxCache()
 	sum := new(big.Int)
-	nProt, nVal := 0, 0
+	nProt := 0
 	var protVal *big.Int
 	type bad struct{ sig, what string }
 	var bads []bad
@@ -525,7 +626,7 @@ func (rn *runner) run(r *rig, v2 bool, s vset, e econ, a *acc) {
 				switch {
 				case !bytes.Equal(tx.RcvAddr, metaDeleg):
 					bads = append(bads, bad{"receiver-on-metachain-is-no-delegation-contract", rcvName(tx.RcvAddr)})
-				case !e.Deleg:
+				case !j.deleg:
 					bads = append(bads, bad{"receiver-on-metachain-while-delegation-disabled", rcvName(tx.RcvAddr)})
 				}
 			}
@@ -536,26 +637,36 @@ func (rn *runner) run(r *rig, v2 bool, s vset, e econ, a *acc) {
 		fail(b.sig, b.what)
 	}
 	tags := ""
-	if offlineWithBlocks {
+	if j.offlineWithBlocks {
 		tags += ":validator-classified-offline-has-signed-blocks"
 	}
+	knownV1 := false
 	if !v2 && sum.Cmp(expected) > 0 {
 		// signature refinement only (never decides the verdict): is the excess exactly the V1
 		// block reward (RewardsPerBlock/consensusSize * selected) of the offline-classified validators?
 		share := new(big.Int)
-		for _, i := range offIdx {
+		for _, i := range j.offIdx {
 			cs := int64(consensusShard)
 			if s[i].G == 2 {
 				cs = consensusMeta
 			}
-			per := new(big.Int).Div(rpb, big.NewInt(cs))
+			per := new(big.Int).Div(j.rpb, big.NewInt(cs))
 			share.Add(share, per.Mul(per, big.NewInt(int64(selVals[s[i].T.Sel]))))
 		}
 		if share.Sign() > 0 && new(big.Int).Sub(sum, expected).Cmp(share) == 0 {
 			tags = ":by-exactly-the-block-rewards-of-validators-classified-offline"
+			knownV1 = true
 		}
 	}
+	if v2 && j.factor == 1 && sum.Cmp(expected) > 0 {
+		// signature refinement only: with factor 1 the top-up limit k equals the rewards for blocks and
+		// computeTopUpRewards' float evaluation can land above it when atan saturates
+		tags = ":top-up-factor-1"
+	}
 	switch d := sum.Cmp(expected); {
+	case d > 0 && knownV1:
+		// the same V1 defect in whichever phase it shows: one signature (registered known finding)
+		failRaw("V1:sum-above-amount-to-distribute"+tags, fmt.Sprintf("sum %s > %s (excess %s)", sum, expected, new(big.Int).Sub(sum, expected)))
 	case d > 0:
 		fail("sum-above-amount-to-distribute"+tags, fmt.Sprintf("sum %s > %s (excess %s)", sum, expected, new(big.Int).Sub(sum, expected)))
 	case d < 0:
@@ -574,20 +685,230 @@ func (rn *runner) run(r *rig, v2 bool, s vset, e econ, a *acc) {
 		if g := cr.GetProtocolSustainabilityRewards(); g.Cmp(protVal) != 0 {
 			fail("GetProtocolSustainabilityRewards-differs-from-protocol-tx", fmt.Sprintf("getter %s, tx %s", g, protVal))
 		}
-		if protVal.Cmp(e.P) < 0 {
-			fail("protocol-tx-below-configured-protocol-reward"+tags, fmt.Sprintf("tx %s < %s", protVal, e.P))
+		if protVal.Cmp(j.P) < 0 {
+			fail("protocol-tx-below-configured-protocol-reward"+tags, fmt.Sprintf("tx %s < %s", protVal, j.P))
 		}
 	}
 	// ---- coverage
-	dust := protVal != nil && protVal.Cmp(e.P) > 0
-	if dust && nVal >= 2 {
+	dust = protVal != nil && protVal.Cmp(j.P) > 0
+	if j.prefix == "" && dust && nVal >= 2 {
 		a.nontrivial++
 		if c.WantSample() {
 			c.Sample(mkOut(sum, ""))
 		}
 	}
-	a.outcomes[ver+"|mbs="+fmt.Sprint(len(mbs), "|valTxs=", nVal, "|dust=", dust, "|offline=", offlineWithBlocks, "|meta=", metaRcv)] = struct{}{}
+	a.outcomes[j.prefix+ver+"|mbs="+fmt.Sprint(len(mbs), "|valTxs=", nVal, "|dust=", dust, "|offline=", j.offlineWithBlocks, "|meta=", j.metaRcv)] = struct{}{}
+	return nVal, dust
 }
+
+// ---------------------------------------------------------------- economics-to-rewards phase
+
+// x2r is one setting of the phase that drives the REAL ComputeEndOfEpochEconomics and hands the
+// produced meta block + shared statistics to the real rewards creator.
+type x2r struct {
+	Rounds    uint64    // rounds of the epoch (previous epoch start at round 0)
+	Blocks    [3]uint64 // blocks of shard 0, shard 1, metachain in the epoch
+	Inflation float64   // MaxInflationRate
+	FeeKind   int       // accumulated fees relative to the inflation-based total, see feeKindName
+	DevKind   int       // developer fees: 0 | fees/10 | 3*fees/10
+	StakingV2 bool      // staking V2 active for the epoch => rewardsCreatorV2 (as rewardsCreatorProxy decides), else V1
+	Deleg     bool      // epoch 15 (delegation + V1 fix-1 on) or 5
+	Curve     int       // top-up curve: 0 = (0.25, 10^21), 1 = (1, 1)
+}
+
+var (
+	feeKindName = []string{"0", "inflationTotal/2", "inflationTotal-1", "inflationTotal", "inflationTotal+1", "2*inflationTotal+12345", "inflationTotal+10^18", "10^15", "inflationTotal*10"}
+	devKindName = []string{"0", "fees/10", "3*fees/10"}
+)
+
+func (x x2r) String() string {
+	return fmt.Sprintf("rounds=%d blocks(shard0,shard1,meta)=%v inflation=%g accumulatedFees=%s devFees=%s stakingV2=%v epochFlags=%v topUpCurve=%d",
+		x.Rounds, x.Blocks, x.Inflation, feeKindName[x.FeeKind], devKindName[x.DevKind], x.StakingV2, x.Deleg, x.Curve)
+}
+
+func (x x2r) metaBlock(fees, dev *big.Int) *block.MetaBlock {
+	epoch := uint32(5)
+	if x.Deleg {
+		epoch = 15
+	}
+	return &block.MetaBlock{
+		Epoch: epoch, Round: x.Rounds, Nonce: x.Blocks[2],
+		AccumulatedFees: big.NewInt(0), DeveloperFees: big.NewInt(0),
+		AccumulatedFeesInEpoch: new(big.Int).Set(fees), DevFeesInEpoch: new(big.Int).Set(dev),
+		EpochStart: block.EpochStart{LastFinalizedHeaders: []block.EpochStartShardData{
+			{ShardID: 0, Round: x.Rounds, Nonce: x.Blocks[0]}, {ShardID: 1, Round: x.Rounds, Nonce: x.Blocks[1]}}},
+	}
+}
+
+type x2rStats struct {
+	judged, skipped, rejected, feesAbove int64
+}
+
+// runX2R computes the economics of one setting on the real component and judges every
+// consistent validator set of sets on the produced meta block.
+func (rn *runner) runX2R(r *rig, x x2r, sets []vset, a *acc, st *x2rStats) {
+	c := rn.c
+	ec := r.econV2off
+	if x.StakingV2 {
+		ec = r.econV2on
+	}
+	r.inflation = x.Inflation
+	r.factor, r.gradient = 0.25, gradientVals[1]
+	if x.Curve == 1 {
+		r.factor, r.gradient = 1, gradientVals[0]
+	}
+	zero := big.NewInt(0)
+	report := func(sig, what string) {
+		c.ViolationR("economics-to-rewards:"+sig, 0, map[string]interface{}{"economics": x.String(), "what": what}, map[string]interface{}{"X": x, "S": vset{}})
+	}
+	// the inflation-based total of this epoch = TotalToDistribute of the same epoch without fees
+	// (read off the real component, not recomputed here)
+	var base *block.Economics
+	var err error
+	if p := mc.Try(func() { base, err = ec.ComputeEndOfEpochEconomics(x.metaBlock(zero, zero)) }); p != "" {
+		report("economics-panic", p)
+		return
+	}
+	if err != nil {
+		st.rejected++
+		return
+	}
+	t0 := base.TotalToDistribute
+	var fees *big.Int
+	switch x.FeeKind {
+	case 0:
+		fees = big.NewInt(0)
+	case 1:
+		fees = new(big.Int).Div(t0, big.NewInt(2))
+	case 2:
+		fees = new(big.Int).Sub(t0, big.NewInt(1))
+	case 3:
+		fees = new(big.Int).Set(t0)
+	case 4:
+		fees = new(big.Int).Add(t0, big.NewInt(1))
+	case 5:
+		fees = new(big.Int).Add(new(big.Int).Mul(t0, big.NewInt(2)), big.NewInt(12345))
+	case 6:
+		fees = new(big.Int).Add(t0, bigS("1000000000000000000"))
+	case 7:
+		fees = bigS("1000000000000000")
+	default:
+		fees = new(big.Int).Mul(t0, big.NewInt(10))
+	}
+	if fees.Sign() < 0 {
+		st.skipped++
+		return
+	}
+	dev := new(big.Int)
+	switch x.DevKind {
+	case 1:
+		dev.Div(fees, big.NewInt(10))
+	case 2:
+		dev.Div(new(big.Int).Mul(fees, big.NewInt(3)), big.NewInt(10))
+	}
+	mb := x.metaBlock(fees, dev)
+	var computed *block.Economics
+	if p := mc.Try(func() { computed, err = ec.ComputeEndOfEpochEconomics(mb) }); p != "" {
+		report("economics-panic", p)
+		return
+	}
+	if err != nil {
+		// the epoch-start block would not be produced: nothing to judge
+		st.rejected++
+		a.outcomes["economics-to-rewards:rejected:"+strings.SplitN(err.Error(), ",", 2)[0]] = struct{}{}
+		return
+	}
+	mb.EpochStart.Economics = *computed // what metaProcessor does before creating the rewards
+	// the statement: "add up exactly to the total that the epoch economics says must be distributed";
+	// developer fees are paid by the smart-contract processor, never through reward transactions
+	expected := new(big.Int).Sub(mb.EpochStart.Economics.TotalToDistribute, mb.DevFeesInEpoch)
+	expectedS, pS := expected.String(), computed.RewardsForProtocolSustainability.String()
+	leader := r.stats.LeaderFees()
+	feesAbove := fees.Cmp(t0) > 0
+	feeShare := new(big.Int).Div(leader, big.NewInt(4)) // a validator with "fees" earned a quarter of the leader fees
+	descr := func() string {
+		return fmt.Sprintf("%s => accumulatedFees=%s devFees=%s inflationTotal=%s | produced: TotalToDistribute=%s RewardsPerBlock=%s RewardsForProtocolSustainability=%s; statistics: leaderFees=%s rewardsForBlocks=%s blocks=%d",
+			x, fees, dev, t0, computed.TotalToDistribute, computed.RewardsPerBlock, computed.RewardsForProtocolSustainability,
+			r.stats.LeaderFees(), r.stats.RewardsToBeDistributedForBlocks(), r.stats.NumberOfBlocks())
+	}
+	for _, s := range sets {
+		ok := true
+		var sum [3]uint64
+		for _, v := range s {
+			sel := uint64(selVals[v.T.Sel])
+			if sel > x.Blocks[v.G] {
+				ok = false
+			}
+			sum[v.G] += sel
+		}
+		for g := range sum {
+			cs := uint64(consensusShard)
+			if g == 2 {
+				cs = consensusMeta
+			}
+			if sum[g] > x.Blocks[g]*cs {
+				ok = false
+			}
+		}
+		if !ok {
+			st.skipped++
+			continue
+		}
+		j := &job{prefix: "economics-to-rewards:", v2: x.StakingV2, s: s, deleg: x.Deleg, mb: mb, computed: &mb.EpochStart.Economics,
+			expected: expected, P: computed.RewardsForProtocolSustainability, rpb: computed.RewardsPerBlock, factor: r.factor,
+			descr: descr, replay: map[string]interface{}{"X": x, "S": s}}
+		j.prepareValidators(r, func(idx int) *big.Int {
+			if idx == 0 {
+				return big.NewInt(0)
+			}
+			return new(big.Int).Set(feeShare)
+		})
+		nVal, _ := rn.execute(r, j, a)
+		st.judged++
+		if feesAbove {
+			st.feesAbove++
+			if nVal >= 1 {
+				a.nontrivial++
+				if x.StakingV2 && x.DevKind > 0 && nVal >= 2 && c.WantSample() {
+					c.Sample(map[string]interface{}{"phase": "economics-to-rewards", "validators": s.String(), "economics": descr()})
+				}
+			}
+		}
+		// the inputs of the oracle must not have been touched by the creator
+		if e2 := new(big.Int).Sub(mb.EpochStart.Economics.TotalToDistribute, mb.DevFeesInEpoch); e2.String() != expectedS || computed.RewardsForProtocolSustainability.String() != pS {
+			report("creator-modified-the-computed-economics", fmt.Sprintf("TotalToDistribute-devFees %s -> %s, protocol %s -> %s", expectedS, e2, pS, computed.RewardsForProtocolSustainability))
+		}
+	}
+}
+
+// x2rList enumerates the settings of the economics-to-rewards phase.
+func x2rList(patterns []x2r, feeKinds []int) []x2r {
+	var out []x2r
+	for _, p := range patterns {
+		for _, infl := range []float64{0.1, 0} {
+			for _, fk := range feeKinds {
+				for dk := range devKindName {
+					for _, sv2 := range []bool{true, false} {
+						for _, dg := range []bool{false, true} {
+							for curve := 0; curve < 2; curve++ {
+								if !sv2 && curve > 0 {
+									continue // V1 has no top-up rewards
+								}
+								x := p
+								x.Inflation, x.FeeKind, x.DevKind, x.StakingV2, x.Deleg, x.Curve = infl, fk, dk, sv2, dg, curve
+								out = append(out, x)
+							}
+						}
+					}
+				}
+			}
+		}
+	}
+	return out
+}
+
+// setsAnyGroup: all sets of <= 2 validators of the reduced menu placed in any groups.
+func setsAnyGroup() []vset { return setsFew(reducedTypes, 2) }
 
 func rcvName(a []byte) string {
 	switch {
@@ -714,7 +1035,7 @@ func main() {
 		if own.Before(c.Deadline) {
 			c.Deadline = own // an explicit shorter --deadline wins
 		}
-		c.Rule = "non-trivial = a consistent input for which >= 2 validator reward transactions are created and the protocol sustainability transaction receives remainders/unassignable rewards (its value exceeds the configured protocol reward)"
+		c.Rule = "non-trivial = (hand-set economics) a consistent input for which >= 2 validator reward transactions are created and the protocol sustainability transaction receives remainders/unassignable rewards; (economics-to-rewards) an input whose accumulated fees exceed the inflation-based total and for which >= 1 validator reward transaction is created; distinct_nontrivial counts validator sets resp. economics settings having such inputs, counter nontrivial_inputs counts the inputs"
 		c.Assumptions = []string{
 			"2 shards + metachain, consensus group size 3 (shards) / 4 (metachain); protocol sustainability address in shard 0; all listed validators are in the eligible list; developer fees 11 (V1 only reads them)",
 			"only inputs consistent with the block counts are judged: NumSelectedInSuccessBlocks <= blocks of the validator's shard, per-shard sum <= blocks*consensusSize, leader fees = sum of listed validators' accumulated fees (+0 or +5); V1: RewardsPerBlock = floor(rewardsForBlocks/numberOfBlocks), TotalToDistribute = rewardsForBlocks + leaderFees + protocolSustainability + developerFees",
@@ -722,20 +1043,26 @@ func main() {
 			"staking-data provider stub: per-node top-up from the menu, total eligible top-up = sum over the listed validators (offline ones included, as the real provider does)",
 			"delegation flag and (V1) rewards-fix-1 flag are switched together through the meta block epoch (5: both off, 15: both on)",
 			"a zero-value protocol sustainability transaction counts as a violation of 'no reward transaction has a zero value' only if it is created; validator transactions with value 0 must not be created",
+			"economics-to-rewards phase: genesis supply 20M*10^18, 4 s rounds, leader and protocol sustainability percentage 10%, previous epoch start at round 0 / nonce 0; accumulated fees are placed relative to the inflation-based total T = TotalToDistribute the real component produces for the same epoch without fees; developer fees <= 30% of the fees (so the rewards for blocks stay >= 0); a validator 'with fees' earned a quarter of the produced leader fees; the creator is V2 iff epoch > StakingV2EnableEpoch (rule of rewardsCreatorProxy); amount to distribute = produced TotalToDistribute - DevFeesInEpoch; settings for which ComputeEndOfEpochEconomics returns an error are not judged (no epoch-start block would exist)",
 			"creators are reused across cases (one V1 + one V2 instance per worker), as the node reuses them across epochs; CreateRewardsMiniBlocks clears its state on entry",
 		}
 		runr := &runner{c: c}
 		if len(c.ReplayData) > 0 {
 			var rd struct {
 				S vset
-				E econ
+				E *econ
 				V bool
+				X *x2r
 			}
-			if err := json.Unmarshal(c.ReplayData, &rd); err != nil {
+			if err := json.Unmarshal(c.ReplayData, &rd); err != nil || (rd.E == nil && rd.X == nil) {
 				c.Fatal("bad replay data: %v", err)
 			}
 			a := &acc{outcomes: map[string]struct{}{}}
-			runr.run(newRig(), rd.V, rd.S, rd.E, a)
+			if rd.X != nil {
+				runr.runX2R(newRig(), *rd.X, []vset{rd.S}, a, &x2rStats{})
+			} else {
+				runr.run(newRig(), rd.V, rd.S, *rd.E, a)
+			}
 			c.Eval(a.evals)
 			return
 		}
@@ -778,7 +1105,61 @@ func main() {
 		}
 		var bound []string
 		capped := false
+		// ---- economics-to-rewards phase: real ComputeEndOfEpochEconomics -> shared statistics -> real creator
+		{
+			patterns := []x2r{{Rounds: 20, Blocks: [3]uint64{20, 20, 20}}, {Rounds: 20, Blocks: [3]uint64{10, 20, 3}}, {Rounds: 4, Blocks: [3]uint64{1, 3, 2}}}
+			feeKinds := []int{0, 1, 2, 3, 4, 5, 6}
+			var vsets []vset
+			what := "<=2 validators of the 5-type reduced menu in any groups"
+			if c.Quick() {
+				vsets = setsAnyGroup()
+			} else {
+				patterns = append(patterns, x2r{Rounds: 100, Blocks: [3]uint64{100, 97, 100}}, x2r{Rounds: 20, Blocks: [3]uint64{0, 0, 0}}, x2r{Rounds: 7, Blocks: [3]uint64{7, 1, 7}})
+				feeKinds = append(feeKinds, 7, 8)
+				vsets = append(append(setsAnyGroup(), setsFew(fullTypes(true), 1)[1:]...), setsMany(1)[1:]...)
+				what += " + every single validator of the full type product + <=1 reduced-menu validator per group"
+			}
+			xs := x2rList(patterns, feeKinds)
+			var mu sync.Mutex
+			var tot x2rStats
+			mc.Par(len(xs), func(i int) {
+				if c.Expired() {
+					mu.Lock()
+					capped = true
+					mu.Unlock()
+					return
+				}
+				r := rigPool.Get().(*rig)
+				defer rigPool.Put(r)
+				a := &acc{outcomes: map[string]struct{}{}}
+				var st x2rStats
+				runr.runX2R(r, xs[i], vsets, a, &st)
+				c.Eval(a.evals)
+				c.Count("nontrivial_inputs", a.nontrivial)
+				if a.nontrivial > 0 {
+					c.Nontrivial("economics-to-rewards|" + xs[i].String())
+				}
+				for k := range a.outcomes {
+					c.Outcome(k)
+				}
+				mu.Lock()
+				tot.judged += st.judged
+				tot.skipped += st.skipped
+				tot.rejected += st.rejected
+				tot.feesAbove += st.feesAbove
+				mu.Unlock()
+			})
+			c.Count("economics_to_rewards_inputs_with_fees_above_inflation_total", tot.feesAbove)
+			bound = append(bound, fmt.Sprintf("economics-to-rewards (real ComputeEndOfEpochEconomics feeding the creator chosen by staking V2): %d economics settings (%d round/block patterns x inflation {0.1,0} x %d fee levels around the inflation total x devFees {0,10%%,30%%} x stakingV2 on/off x epoch flags x top-up curve) x %d validator sets (%s): %d consistent inputs judged (%d with fees above the inflation total), %d inconsistent skipped, %d settings rejected by the economics component",
+				len(xs), len(patterns), len(feeKinds), len(vsets), what, tot.judged, tot.feesAbove, tot.skipped, tot.rejected))
+			if capped {
+				c.Cap("deadline in the economics-to-rewards phase")
+			}
+		}
 		for _, l := range layers {
+			if capped {
+				break
+			}
 			l := l
 			var mu sync.Mutex
 			var judged, skipped int64
